@@ -248,9 +248,22 @@ def budget(tier):
     return 8000 if tier == "quick" else 300000
 
 
+# constraints active at the starting point, a tiny initial radius and a feasibility tolerance of zero (or
+# tiny): the first evaluations violate the constraints by 1e-12 .. 1e-8, which must count as infeasible
+TIGHT = dict(PROFILE, slacks=[0.0], infeasible_prob=0, faults=10, max_lin=2, max_nl=1, scale_prob=0,
+             limit_pats=[("le", 3), ("ge", 3), ("two", 1), ("eq", 1)], maxfev=(3, 25))
+
+
 @st.composite
 def strategy_e2e(draw):
-    sp = dec(draw(S.nan_split_problems(PROFILE) if draw(st.integers(0, 7)) == 0 else S.problems(PROFILE)))
+    fam = draw(st.integers(0, 7))
+    if fam == 1:
+        sp = dec(draw(S.problems(TIGHT)))
+        sp["options"]["feasibility_tol"] = draw(st.sampled_from([0.0, 0.0, 1e-12, 1e-10]))
+        sp["options"]["radius_init"] = draw(st.sampled_from([1e-12, 1e-9, 1e-9, 1e-8]))
+        sp["options"].pop("radius_final", None)
+    else:
+        sp = dec(draw(S.nan_split_problems(PROFILE) if fam == 0 else S.problems(PROFILE)))
     sp["options"]["store_history"] = True
     sp["options"].pop("history_size", None)
     sp["options"].pop("filter_size", None)
